@@ -23,7 +23,7 @@ func Check() *engine.Check {
 			"in the loader or named in the schema and every documented option: the minimal configuration with and without the option given in a " +
 			"file (schema verdict, loader verdict without schema, real load + mechanisms.NewMechanismFactory) and purely through the environment. " +
 			"Non-trivial: the environment defines a leaf and either the file defines another leaf of the family or the environment defines >= 2 " +
-			"(parts i-ii), every case of parts iii-iv (>= 2 variables / a deviating iteration order), every case of part v.",
+			"(parts i-ii), every case of parts iii-iv (>= 2 variables / a deviating iteration order), every case of part v. (isolation) two default configurations share no map, slice or pointer (neither with each other nor within one of them); after every load of a menu of 7 documents (file and environment) a load with nothing defined equals the first load of the process, and the same document loaded twice gives the same result.",
 		Assumptions: []string{
 			"the value of an environment variable is the YAML scalar text that the file would contain (env.go types it with a YAML parser)",
 			"configurations are compared field by field; nil and empty slices/maps count as equal (no consumer can tell them apart)",
@@ -63,6 +63,13 @@ func run(c *engine.Ctx) {
 
 		return c.Mine(unit)
 	}
+
+	// ---- isolation of loads: the first load of this process is the reference (before anything else is loaded) ------
+	if !rememberPristine(c, w) {
+		return
+	}
+
+	runIsolation(c, w, next)
 
 	// ---- part (v): schema <=> loader (cheap, first) ----------------------------
 	runSchemaPart(c, w, next)
@@ -266,6 +273,16 @@ func replay(c *engine.Ctx, raw json.RawMessage) {
 	}
 
 	defer w.close()
+
+	var part struct {
+		Part string `json:"part"`
+	}
+
+	if json.Unmarshal(raw, &part) == nil && part.Part == "isolation" {
+		replayIsolation(c, w, raw)
+
+		return
+	}
 
 	switch probe.Kind {
 	case "vs-reference":
